@@ -19,6 +19,8 @@ RULES = {
              "(clamped) prediction (derivative table; |x|' = sgn x with 0 at 0, decided case-wise)",
     "R06.4": "every return path goes through `match self.clamp`; the Some((min,max)) arm returns gradient.clamp(min, max) with the "
              "arguments in that order and the same loss; the None arm returns (loss, gradient) unchanged",
+    "R06.7": "the configured clamp reaches the objective unchanged: objective::Function::create stores its `clamp` parameter as is in every "
+             "variant (no filtering/rebinding) and nothing writes the field afterwards",
     "R06.5": "finite loss on the closed domain (interval analysis): target, prediction in [0,1] for CE/BCE/KL (any finite moderate "
              "reals otherwise): every ln argument > 0, every denominator non-zero, no 0*inf; the loss cannot be NaN",
     "R06.6": "argument order: objective::Function::loss forwards (prediction, target) to every variant; the two call sites in "
@@ -493,7 +495,32 @@ def _closure_tuple_pos(root, hid):
     return None
 
 
+def r7(ctx):
+    c = ctx.crate
+    fn = ctx.fn("objective::Function::create")
+    ch = pat_binds(fn["params"][1])[0][1]
+    lits = [x for x in walk(fn["body"]) if x.get("k") == "struct" and x["path"].startswith("objective::") and any(a_ == "clamp" for a_, _ in x["fs"])]
+    seen = set()
+    for x in lits:
+        kind = x["path"].split("::")[-1]
+        seen.add(kind)
+        v = dict((a_, e_) for a_, e_ in x["fs"])["clamp"]
+        ctx.check("R06.7", "clamp-stored-unchanged:" + kind, e4.local_hid(v) == ch, "clamp-not-the-configured-interval:" + short(pretty(v), 40), c.loc(fn, x),
+                  "%s { clamp } is the caller's clamp" % kind, "%s is created with clamp `%s` instead of the configured interval" % (kind, pretty(v)))
+    for k in KINDS:
+        if k not in seen:
+            ctx.bad("R06.7", "clamp-stored-unchanged:" + k, "objective-not-constructed", c.loc(fn), "")
+    shadow = [s_ for s_ in walk(fn["body"]) if s_.get("k") == "let" and any(nm == "clamp" for nm, _ in pat_binds(s_["pat"]))]
+    ctx.check("R06.7", "clamp-not-rebound", not shadow, "clamp-rebound:" + (short(pretty(shadow[0]["init"]), 60) if shadow else ""), c.loc(fn, shadow[0]) if shadow else c.loc(fn),
+              "the clamp parameter is not filtered or replaced", "Function::create rebinds `clamp` to `%s` before storing it: some configured intervals are silently dropped or altered" % (pretty(shadow[0]["init"]) if shadow else ""))
+    for kind in KINDS:
+        wr = [w for mk, mv in c.mir.items() for w in mv["facts"]["writes"] + mv["facts"]["mutborrows"] if w["adt"] == OBJ + kind and w["field"] == "clamp"]
+        ctx.check("R06.7", "clamp-immutable:" + kind, not wr, "clamp-written-after-construction", OBJ + kind, "clamp is never written after construction")
+
+
 def run(ctx):
+    ctx.guard("R06.7", "clamp-configuration", r7, ctx)
+    ctx.floor("R06.7", 15, "7 literals, 1 rebinding fact, 7 immutability facts")
     for kind in KINDS:
         r = ctx.guard("R06.1", kind, r1, ctx, kind)
         if not r:
